@@ -15,7 +15,7 @@
         needs <<job indices>>,        ascending; an index > Len(jobs) names no job (dangling)
         outs  <<names>>,              declared outputs
         steps <<s>>,                  s = "-" no id | "$" id given by an expression | literal id
-        mx [k "none"|"expr"|"lit", rows <<[n, lit]>>, inc [k "none"|"expr"|"list", cs <<e>>], exc],
+        mx [k "none"|"expr"|"lit", rows <<[n, lit, vk]>>, inc [k "none"|"expr"|"list", cs <<e>>], exc],
                                       e = "$" element given by an expression | "a" | "c" | "ac" keys
         runs "u"|"w"|"uw", shell ""|name]
    Site  : [k, j, s]  - kind, job index (0 = header), step index (0 = job level)
@@ -59,7 +59,8 @@ Lt(x, y) == Ord(x) < Ord(y)
 JN == <<"j1", "j2", "j3">>
 JobIdx(n) == IF \E i \in DOMAIN JN : JN[i] = n THEN CHOOSE i \in DOMAIN JN : JN[i] = n ELSE 0
 AutoSecrets == {"github_token", "actions_step_debug", "actions_runner_debug"}
-KeysOf(e) == CASE e = "a" -> {"a"} [] e = "c" -> {"c"} [] e = "ac" -> {"a", "c"} [] OTHER -> {}
+\* include elements: "a", "c", "ac" assign scalars to those keys; "A" assigns the object literal {y: 1} to key a
+KeysOf(e) == CASE e = "a" -> {"a"} [] e = "c" -> {"c"} [] e = "ac" -> {"a", "c"} [] e = "A" -> {"a"} [] OTHER -> {}
 
 Site(kind, j, s) == [k |-> kind, j |-> j, s |-> s]
 Ref(ctx, p) == [ctx |-> ctx, p |-> p]
@@ -110,6 +111,15 @@ CountedSteps(s, site) ==
   IF site.s > 0 THEN 1 .. (site.s - 1) ELSE DOMAIN s.jobs[site.j].steps
 
 MatrixOpen(m) == m.k = "expr" \/ m.inc.k = "expr" \/ \E i \in DOMAIN m.inc.cs : m.inc.cs[i] = "$"
+\* a row has the value kind vk: "num" scalars, "obj" the object literal {x: 1}, "objexpr" that literal and one element
+\* given by an expression; lit = FALSE: the whole row is an expression
+RowsOf(m, key) == {i \in DOMAIN m.rows : m.rows[i].n = key}
+ValueUnknown(m, key) == \E i \in RowsOf(m, key) : ~m.rows[i].lit \/ m.rows[i].vk = "objexpr"
+ValueMembers(m, key) == (IF \E i \in RowsOf(m, key) : m.rows[i].lit /\ m.rows[i].vk \in {"obj", "objexpr"} THEN {"x"} ELSE {})
+                        \cup (IF key = "a" /\ \E i \in DOMAIN m.inc.cs : m.inc.cs[i] = "A" THEN {"y"} ELSE {})
+\* members are only asked for when every literal value of the key is an object (a scalar has no members at all)
+NestedOK(m, key) == /\ \A i \in RowsOf(m, key) : ~m.rows[i].lit \/ m.rows[i].vk \in {"obj", "objexpr"}
+                    /\ \A i \in DOMAIN m.inc.cs : key \in KeysOf(m.inc.cs[i]) => m.inc.cs[i] = "A"
 MatrixKeys(m) == {m.rows[i].n : i \in DOMAIN m.rows} \cup UNION {KeysOf(m.inc.cs[i]) : i \in DOMAIN m.inc.cs}
 
 Defined(s, site, r) ==
@@ -126,7 +136,11 @@ Defined(s, site, r) ==
          /\ n >= 3 => (p[2] = "outputs" /\ (s.jobs[t].kind = "call" \/ p[3] \in Range(s.jobs[t].outs)))
     [] r.ctx = "matrix" ->
          LET m == s.jobs[site.j].mx IN
-         IF m.k = "none" THEN FALSE ELSE IF MatrixOpen(m) THEN TRUE ELSE p[1] \in MatrixKeys(m)
+         IF m.k = "none" THEN FALSE ELSE IF MatrixOpen(m) THEN TRUE
+         ELSE /\ p[1] \in MatrixKeys(m)
+              \* a member of the values of a key: defined iff SOME value the key can take has it; whatever is reachable
+              \* through a value given by an expression is unknown
+              /\ n >= 2 => (ValueUnknown(m, p[1]) \/ p[2] \in ValueMembers(m, p[1]))
     [] r.ctx = "inputs" ->
          \/ s.call.k = "some" /\ p[1] \in Range(s.call.ins)
          \/ s.disp.k = "some" /\ p[1] \in Range(s.disp.ins)
@@ -146,13 +160,14 @@ RefU ==
   \cup {Ref("needs", q) : q \in {<<t>> : t \in {"j1", "j2", "j3", "j0"}}
                                \cup {<<t, x>> : t \in {"j1", "j2", "j3"}, x \in {"outputs", "result", "zz"}}
                                \cup {<<t, "outputs", o>> : t \in {"j1", "j2", "j3"}, o \in {"o", "zz"}}}
-  \cup {Ref("matrix", <<i>>) : i \in {"a", "b", "c", "z"}}
+  \cup {Ref("matrix", <<i>>) : i \in {"a", "b", "c", "z"}} \cup {Ref("matrix", <<"a", i>>) : i \in {"x", "y", "z"}}
   \cup {Ref("inputs", <<i>>) : i \in {"a", "b", "c", "z"}}
   \cup {Ref("ghinputs", <<i>>) : i \in {"a", "c", "z"}}
   \cup {Ref("secrets", <<i>>) : i \in {"s", "github_token", "actions_runner_debug", "z"}}
   \cup {Ref("jobs", q) : q \in {<<t>> : t \in {"j1", "j2", "j0"}} \cup {<<t, x>> : t \in {"j1", "j2"}, x \in {"outputs", "result"}}
                               \cup {<<t, "outputs", o>> : t \in {"j1", "j2"}, o \in {"o", "zz"}}}
 RefsAt(kind) == {r \in RefU : CtxVar(r.ctx) \in Avail(kind)}
+RefsFor(s, site) == {r \in RefsAt(site.k) : (r.ctx = "matrix" /\ Len(r.p) >= 2) => (site.j > 0 /\ NestedOK(s.jobs[site.j].mx, r.p[1]))}
 
 \* shell with which a `run:` step of job j is executed / is it a Python script
 EffShell(s, j) ==
@@ -209,17 +224,25 @@ NeedsFrom(s, j, i, out) ==
 CalcNeedsType(s, j) == NeedsFrom(s, j, 1, EmptyStrict)
 
 \* checkMatrix
+\* ExprType.Merge on the abstract types
+MergeT(a, b) == IF a.k = "obj" THEN Merge(a, b) ELSE IF a.k = "str" /\ b.k = "str" THEN StrT ELSE AnyT
+RowT(row) == IF ~row.lit THEN AnyT ELSE IF row.vk = "obj" THEN Obj("strict", {P("x", StrT)})
+             ELSE IF row.vk = "objexpr" THEN AnyT ELSE StrT                   \* {x: 1} merged with type any
 RECURSIVE IncFrom(_, _, _)
 IncFrom(cs, i, o) ==
   IF i > Len(cs) THEN o
   ELSE IF cs[i] = "$"
          THEN IncFrom(cs, i + 1, [o EXCEPT !.mode = "loose"])          \* o.Merge(any) is no object: o.Loose()
-         ELSE IncFrom(cs, i + 1, [o EXCEPT !.props = {q \in @ : q.n \notin KeysOf(cs[i])} \cup {P(x, StrT) : x \in KeysOf(cs[i])}])
+         ELSE LET vt == IF cs[i] = "A" THEN Obj("strict", {P("y", StrT)}) ELSE StrT IN        \* checkRawYAMLValue
+              IncFrom(cs, i + 1, [o EXCEPT !.props = {q \in @ : q.n \notin KeysOf(cs[i])}
+                                             \cup {P(x, IF HasProp(o, x) THEN MergeT(PropT(o, x), vt) ELSE vt) : x \in KeysOf(cs[i])}])
 CheckMatrix(m) ==
   IF m.k = "expr" THEN Loose0                                          \* checkMatrixExpression on type any
-  ELSE LET o == Obj("strict", {P(m.rows[i].n, IF m.rows[i].lit THEN StrT ELSE AnyT) : i \in DOMAIN m.rows}) IN
+  ELSE LET o == Obj("strict", {P(m.rows[i].n, RowT(m.rows[i])) : i \in DOMAIN m.rows}) IN
        IF m.inc.k = "none" THEN o
        ELSE IF m.inc.k = "expr" THEN Loose0                            \* type any is no *ArrayType
+       \* an include element of unknown type makes every key unknown
+       ELSE IF \E i \in DOMAIN m.inc.cs : m.inc.cs[i] = "$" THEN Loose0
        ELSE IncFrom(m.inc.cs, 1, o)
 
 \* checkSemanticsOfExprNode: the variable table handed to the checker
@@ -368,7 +391,7 @@ BuildJobs ==
         \/ /\ m.k \in {"none", "lit"} /\ m.inc.k = "none" /\ m.exc = "none"
            /\ \E x \in RowNames, kind \in (IF j \in MxJobs THEN RowKinds ELSE {"lit"}) :
                 /\ \A i \in DOMAIN m.rows : Lt(m.rows[i].n, x)
-                /\ sh' = [sh EXCEPT !.jobs[j].mx.k = "lit", !.jobs[j].mx.rows = Append(@, [n |-> x, lit |-> kind = "lit"])]
+                /\ sh' = [sh EXCEPT !.jobs[j].mx.k = "lit", !.jobs[j].mx.rows = Append(@, [n |-> x, lit |-> kind # "expr", vk |-> IF kind \in {"obj", "objexpr"} THEN kind ELSE "num"])]
         \/ /\ j \in MxJobs /\ m.k \in {"none", "lit"} /\ m.inc.k = "none" /\ m.exc = "none" /\ "expr" \in IncKinds
            /\ sh' = [sh EXCEPT !.jobs[j].mx.k = "lit", !.jobs[j].mx.inc.k = "expr"]
         \/ /\ j \in MxJobs /\ m.k \in {"none", "lit"} /\ m.inc.k \in {"none", "list"} /\ m.exc = "none" /\ Len(m.inc.cs) < MaxInc
@@ -426,7 +449,7 @@ LayoutOf(s, site, r) == (IdxIn(KindOrd, site.k) + RefOrd(r) + 3 * ShapeOrd(s)) %
 VecSites(s) == {x \in AllSites(s) : x.k \in Sites}
 Pick ==
   /\ sh.jobs # <<>>
-  /\ \E site \in VecSites(sh) : \E r \in {q \in RefsAt(site.k) : q.ctx \in Ctxs /\ (site.k \in ShortSites => Len(q.p) = 1)} :
+  /\ \E site \in VecSites(sh) : \E r \in {q \in RefsFor(sh, site) : q.ctx \in Ctxs /\ (site.k \in ShortSites => Len(q.p) = 1)} :
        tc' = ToJson([sh |-> sh, site |-> site, ref |-> r, def |-> Defined(sh, site, r), sp |-> SpellingOf(sh, site, r),
                      emb |-> EmbeddingOf(sh, site, r), idsh |-> IdShapeOf(sh, site, r), lay |-> LayoutOf(sh, site, r)])
   /\ phase' = "vec"
@@ -468,7 +491,7 @@ Spec == Init /\ [][Next]_vars
 ----------------------------------------------------------------------------
 (* Invariants *)
 \* the environment in force at every checked site reports exactly the references that are not in scope
-ScopeAgrees == \A o \in obs : \A r \in RefsAt(o.site.k) : OpReported(o.env, r) = ~Defined(sh, o.site, r)
+ScopeAgrees == \A o \in obs : \A r \in RefsFor(sh, o.site) : OpReported(o.env, r) = ~Defined(sh, o.site, r)
 \* the shell state in force at a run: step is the one the workflow text determines
 ShellAgrees == \A o \in obs : o.site.k = "run" => (o.shell = EffShell(sh, o.site.j) /\ o.py = EffPy(sh, o.site.j))
 \* per-job state is initial whenever a job can be entered, per-workflow state when a workflow is entered
